@@ -4,9 +4,11 @@
 //!   chan replay <replay.json>
 
 mod adapt;
+mod bcast;
 mod e1;
 mod e2;
 mod payload;
+mod topic;
 
 use std::cell::RefCell;
 use vcore::{Check, Ctx, EvidenceMeta, Failure, Replay};
@@ -54,6 +56,14 @@ fn run_replay(r: &Replay) -> Option<Failure> {
       let s: e2::Scenario = vcore::from_value(&r.scenario);
       e2::execute(&s).err()
     }
+    "E1-topic" => {
+      let s: topic::Scenario = vcore::from_value(&r.scenario);
+      topic::execute(&s).err()
+    }
+    "E1-broadcast" => {
+      let s: bcast::Scenario = vcore::from_value(&r.scenario);
+      bcast::execute(&s).err()
+    }
     other => {
       eprintln!("unknown engine {other}");
       std::process::exit(2)
@@ -81,6 +91,22 @@ fn check_e2(check: &mut Check, flavours: Vec<adapt::Flavour>) {
   };
   let out = vcore::drive(&ctx, &check.findings, 2, cases, move || e2::scenario_strategy(flavours.clone(), lw, max_ops), |s| e2::execute(s));
   check.absorb("E2", out);
+}
+
+fn check_topic(check: &mut Check, scale: u64) {
+  let ctx = check.ctx.clone();
+  let cases = std::env::var("VERIF_CASES4").ok().and_then(|s| s.parse().ok()).unwrap_or(ctx.tier.pick(30_000u64, 1_500_000u64) / scale);
+  let max_ops = ctx.tier.pick(50usize, 90usize);
+  let out = vcore::drive(&ctx, &check.findings, 4, cases, move || topic::scenario_strategy(max_ops), |s| topic::execute(s));
+  check.absorb("E1-topic", out);
+}
+
+fn check_bcast(check: &mut Check, scale: u64) {
+  let ctx = check.ctx.clone();
+  let cases = std::env::var("VERIF_CASES3").ok().and_then(|s| s.parse().ok()).unwrap_or(ctx.tier.pick(30_000u64, 1_500_000u64) / scale);
+  let max_ops = ctx.tier.pick(60usize, 100usize);
+  let out = vcore::drive(&ctx, &check.findings, 3, cases, move || bcast::scenario_strategy(max_ops), |s| bcast::execute(s));
+  check.absorb("E1-broadcast", out);
 }
 
 fn main() {
@@ -139,7 +165,19 @@ fn main() {
           if std::env::var("VERIF_ONLY").map(|v| v != "E1").unwrap_or(true) {
             check_e2(&mut check, adapt::P2P.to_vec());
           }
+          if (prop == "C04" || prop == "C09") && std::env::var("VERIF_ONLY").is_err() {
+            check_bcast(&mut check, 3);
+            check_topic(&mut check, 3);
+          }
           (rule_for(&prop), vec!["E1: sequential histories (no overlapping operations); E2: single-threaded async histories (overlap through pending futures only)".into()])
+        }
+        "C08" => {
+          check_topic(&mut check, 1);
+          ("proptest-generated histories over 3 topics, up to 3 sender handles and 3 receivers (subscribe/unsubscribe/clone/close/drop/convert, sync and async forms) against a model of subscription sets and bounded drop-newest mailboxes; non-trivial = a subscription changed between two publishes, or a mailbox overflowed, or a sender clone went away while another stayed; distinct = hash of the scenario".into(), vec!["sequential histories (publishing never overlaps a subscription change)".into()])
+        }
+        "C07" => {
+          check_bcast(&mut check, 1);
+          ("proptest-generated histories of one sender and up to 4 receivers (clone/close/drop/convert, single and batch forms) against a send-log + per-receiver-cursor model; non-trivial = at least one full lap of the ring and two live receivers with different cursors; distinct = hash of the scenario".into(), vec!["sequential histories (no overlapping operations)".into()])
         }
         "C06" => {
           check_e2(&mut check, adapt::P2P.to_vec());
